@@ -199,7 +199,18 @@ func checkC05(r *Run) {
 					return f != nil && pn == passName && f.Kind == first.Kind
 				}, 150)
 				after, _ := newLanguage(l).CompilerPasses().Process(cloneSchemas(small))
-				r.Violation("chain/"+lang+"/"+passName+"/dangling-"+first.Kind, fmt.Sprintf("in the %s chain, %s turns a resolving reference into a dangling one (%s.%s at %s) [%s].\nminimised input IR [%s]:\n%safter the chain:\n%s", lang, passName, first.Pkg, first.Target, first.Where, tagset, irFeatures(small), irSummary(small), irSummary(after)), map[string]any{"language": lang, "input_ir": mustJSON(small)})
+				// what kind of object the reference pointed to before the chain: the same pass may lose a target for unrelated reasons
+				targetKind := "absent"
+				if o, ok := small.LocateObject(first.Pkg, first.Target); ok {
+					targetKind = string(o.Type.Kind)
+					if o.Type.Kind == ast.KindRef {
+						targetKind = "alias"
+						if t2, ok := small.LocateObject(o.Type.Ref.ReferredPkg, o.Type.Ref.ReferredType); ok {
+							targetKind = "alias-of-" + string(t2.Type.Kind)
+						}
+					}
+				}
+				r.Violation("chain/"+lang+"/"+passName+"/dangling-"+first.Kind+"/target:"+targetKind, fmt.Sprintf("in the %s chain, %s turns a resolving reference into a dangling one (%s.%s at %s) [%s].\nminimised input IR [%s]:\n%safter the chain:\n%s", lang, passName, first.Pkg, first.Target, first.Where, tagset, irFeatures(small), irSummary(small), irSummary(after)), map[string]any{"language": lang, "input_ir": mustJSON(small)})
 				continue
 			}
 			// builder targets
